@@ -73,5 +73,6 @@ theorem slice_nat {α} (l : List α) (a b : Nat) (h : a ≤ b) :
 
 theorem bind_ok_eq {α β} (a : α) (f : α → Outcome β) : (Outcome.ok a).bind f = f a := rfl
 theorem bind_escape_eq {α β} (k : ExcKind) (f : α → Outcome β) : (Outcome.escape k : Outcome α).bind f = .escape k := rfl
+theorem bind_ok_right {α} (x : Outcome α) : Outcome.bind x (fun t => .ok t) = x := by cases x <;> rfl
 
 end Cardutil.SrcTie
